@@ -290,6 +290,11 @@ func (eval Evaluator) evaluateInPlace(level int, el0 *rlwe.Ciphertext, el1 *rlwe
 			elOut.Value[i].CopyLvl(level, largest.Value[i])
 		}
 	}
+
+	// Clears the components of the receiver that neither operand has.
+	for i := utils.Max(el0.Degree(), el1.Degree()) + 1; i < elOut.Degree()+1; i++ {
+		elOut.Value[i].Zero()
+	}
 }
 
 func (eval Evaluator) matchScaleThenEvaluateInPlace(level int, el0 *rlwe.Ciphertext, el1 *rlwe.Element[ring.Poly], elOut *rlwe.Ciphertext, evaluate func(ring.Poly, uint64, ring.Poly)) {
